@@ -773,6 +773,16 @@ func (n *Network) Blackhole(c *Conn, dead bool) {
 	n.cond.Broadcast()
 }
 
+// InjectBytes appends bytes to a link's in-flight data as if its writer had
+// sent them (corruption / protocol violation by the peer).
+func (n *Network) InjectBytes(l *Link, data []byte) {
+	n.mu.Lock()
+	l.inflight = append(l.inflight, data...)
+	n.cond.Broadcast()
+	n.mu.Unlock()
+	n.notify()
+}
+
 // ArmStall makes the next Write on l park after its bytes are in flight.
 func (n *Network) ArmStall(l *Link) {
 	n.mu.Lock()
